@@ -1,20 +1,29 @@
-import SgVerif.C30.Model
+import SgVerif.C30.Lemmas
 /-
 C30 — Derived datatypes have MPI layout and transfer exactly their bytes.  Property theorems.
 
-FULL-STRENGTH statements of the property (kept here; FALSE on the current code, see the `_counterexample`s):
+FULL-STRENGTH statements of the property:
   size_eq_spec            ∀ t valid, build t = some o → o.info.size = (Spec.layout t).size
   lb_ub_extent_eq_spec    ∀ t valid with non-negative displacements, build t = some o →
                             o.info.lb = (Spec.layout t).lb ∧ o.info.ub = (Spec.layout t).ub
   copy_touches_only_typemap / pack_unpack_roundtrip
                           ∀ t, count: walk o count 0 = Spec.bytesOf (Spec.layout t) count
-What is PROVED below: the constructors `resized` and `dup` (∀ trees, any depth: `resized_lb_ub_eq_spec`,
-`dup_layout_eq`), the size of every MPI placement (`spec_size_place`), the round trip of the code's own pack/unpack on the
-bytes its walk selects (`pack_unpack_roundtrip_partial`, ∀ objects, ∀ counts), and one machine-checked counterexample per
-defective constructor (concrete witness, `decide`), each replayed on the library by the correspondence check.
-NOT proved (weaker than DESIGN §8 C30): the ∀-tree `_partial` versions of size_eq_spec / lb_ub_extent_eq_spec for
-contiguous, vector, hvector, indexed, hindexed, struct, subarray under the hypotheses the counterexamples suggest
-(old lb = 0, block lengths ≥ 1, ndims ≥ 2): they are covered by the differential check only.
+What is PROVED below (the model follows the code after props/C30/fix_series):
+ * per constructor, ∀ arguments, under "the old type satisfies the spec" (its lb / ub are MPI's, its extent is not
+   negative, and a non-derived old type has the natural bounds lb = 0, ub = size): `lb_ub_extent_eq_spec_indexed`,
+   `_hindexed`, `_indexed_block`, `_hindexed_block` (every branch of create_indexed / create_hindexed, incl. zero-length
+   blocks, old lb ≠ 0, the contiguous shortcut), `_struct` (every member satisfies the spec), `_subarray_ndims1`,
+   `resized_lb_ub_eq_spec`, `dup_layout_eq`;
+ * closed under nesting for the indexed family: `lb_ub_extent_eq_spec_idx_trees` — by induction on the tree, for every tree
+   made of basic types, indexed / hindexed / *_block, resized (extent ≥ 0) and dup, at any depth: lb and ub are MPI's;
+ * the size of every MPI placement (`spec_size_place`), the round trip of the code's own pack/unpack on the bytes its
+   walk selects (`pack_unpack_roundtrip_partial`, ∀ objects, ∀ counts);
+ * the witnesses of the fixed defects as regression theorems (`…_regression`, `decide`): the fixed `build` gives MPI's
+   values on them (the values of the old code are quoted in each docstring; the library replays them from corpus.txt).
+NOT proved (weaker than DESIGN §8 C30): the closure for trees containing struct / vector / contiguous / subarray nodes,
+∀-tree `size_eq_spec`, lb/ub of contiguous / vector / hvector / n-dimensional
+subarray for all arguments, `walk = Spec.bytesOf`: covered by the differential check only.  Still false on the code
+(findings kept): true extent (`true-extent`), uncommitted old type of a ≥ 2-dimensional subarray (`valid-type-rejected`).
 -/
 namespace SgVerif.C30
 
@@ -28,8 +37,7 @@ theorem cloneObj_info (o : Obj) : (cloneObj o).info = o.info := by
   unfold cloneObj
   split <;> simp [Obj.info]
 
-/-- `MPI_Type_dup` keeps size, lb, ub (∀ trees) — it does NOT keep the blocks of vector / indexed types, see
-    `dup_vector_walk_counterexample` -/
+/-- `MPI_Type_dup` keeps size, lb, ub (∀ trees) -/
 theorem dup_layout_eq (t : Tree) (o : Obj) (h : build t = some o) :
     ∃ r, build (.dup t) = some r ∧ r.info = o.info ∧ Spec.layout (.dup t) = Spec.layout t := by
   refine ⟨cloneObj o, ?_, cloneObj_info o, ?_⟩
@@ -92,7 +100,8 @@ theorem writeAll_read (os : List Int) : ∀ (vs : List Nat) (m : Mem), os.Nodup 
       simp only [writeAll, List.map_cons, e1]
       rw [ih vs _ hnd' (by simpa using hl)]
 
-/-- FULL STRENGTH would add `walk o count 0 = Spec.bytesOf (Spec.layout t) count` (false: `multi_count_walk_counterexample`).
+/-- FULL STRENGTH would add `walk o count 0 = Spec.bytesOf (Spec.layout t) count` (not proved; it was false before
+    props/C30/fix_series/06: see the `xfer` lines of corpus.txt).
     PROVED, ∀ objects the code can build, ∀ counts, ∀ memories: if the offsets the code walks are pairwise distinct, unpacking
     what was packed restores exactly those bytes and leaves every other byte of the destination untouched. -/
 theorem pack_unpack_roundtrip_partial (o : Obj) (count : Int) (src dst : Mem) (hnd : (walk o count 0).Nodup) :
@@ -104,52 +113,305 @@ theorem pack_unpack_roundtrip_partial (o : Obj) (count : Int) (src dst : Mem) (h
   · intro a ha
     exact writeAll_other _ _ _ a ha
 
-/-! ### counterexamples (concrete witnesses; every one is replayed on the library by props/C30/corpus.txt) -/
+/-! ### per-constructor lb / ub theorems (∀ arguments) -/
+
+theorem info_extent_eq (t : Tree) (o : Obj) (hlb : o.info.lb = (Spec.layout t).lb) (hub : o.info.ub = (Spec.layout t).ub) :
+    o.info.extent = (Spec.layout t).extent := by
+  simp only [Info.extent, Spec.Layout.extent, hlb, hub]
+
+/-- **MPI_Type_indexed**, ∀ block lists (any lengths ≥ 0 incl. 0, any displacements, any order), ∀ old types that satisfy
+    the spec: the lb and ub the code computes are MPI's (min / max over the placed copies of the old type's lb / ub;
+    0 / 0 for a type without any copy).  Covers the Type_Indexed object and the contiguous shortcut. -/
+theorem lb_ub_extent_eq_spec_indexed (bs : List (Int × Int)) (t : Tree) (o r : Obj) (ho : build t = some o)
+    (hlb : o.info.lb = (Spec.layout t).lb) (hub : o.info.ub = (Spec.layout t).ub)
+    (hext : 0 ≤ (Spec.layout t).extent)
+    (hnat : o.info.derived = false → o.info.lb = 0 ∧ o.info.ub = o.info.size)
+    (hr : build (.indexed bs t) = some r) :
+    r.info.lb = (Spec.layout (.indexed bs t)).lb ∧ r.info.ub = (Spec.layout (.indexed bs t)).ub := by
+  simp only [build, ho, Option.bind_some] at hr
+  have hE := info_extent_eq t o hlb hub
+  obtain ⟨h1, h2⟩ := mkIndexed_bounds bs o r (by rw [hE]; exact hext) hnat hr
+  rw [h1, h2, hE, hlb, hub]
+  have e : (fun (b : Int × Int) => (Spec.range b.1).map (fun j => (b.2 + j) * (Spec.layout t).extent)) =
+      (fun b => blockCopies (b.2 * (Spec.layout t).extent) b.1 (Spec.layout t).extent) := by
+    funext b; simp only [blockCopies]; congr 1; funext j; rw [Int.add_mul]
+  simp only [Spec.layout, Spec.place, e]
+  exact ⟨trivial, trivial⟩
+
+/-- **MPI_Type_create_hindexed**, same statement (displacements in bytes) -/
+theorem lb_ub_extent_eq_spec_hindexed (bs : List (Int × Int)) (t : Tree) (o r : Obj) (ho : build t = some o)
+    (hlb : o.info.lb = (Spec.layout t).lb) (hub : o.info.ub = (Spec.layout t).ub)
+    (hext : 0 ≤ (Spec.layout t).extent)
+    (hnat : o.info.derived = false → o.info.lb = 0 ∧ o.info.ub = o.info.size)
+    (hr : build (.hindexed bs t) = some r) :
+    r.info.lb = (Spec.layout (.hindexed bs t)).lb ∧ r.info.ub = (Spec.layout (.hindexed bs t)).ub := by
+  simp only [build, ho, Option.bind_some] at hr
+  have hE := info_extent_eq t o hlb hub
+  obtain ⟨h1, h2⟩ := mkHindexed_bounds bs o r (by rw [hE]; exact hext) hnat hr
+  rw [h1, h2, hE, hlb, hub]
+  have e : (fun (b : Int × Int) => (Spec.range b.1).map (fun j => b.2 + j * (Spec.layout t).extent)) =
+      (fun b => blockCopies (b.2 * 1) b.1 (Spec.layout t).extent) := by
+    funext b; simp only [blockCopies, Int.mul_one]
+  simp only [Spec.layout, Spec.place, e]
+  exact ⟨trivial, trivial⟩
+
+/-- **MPI_Type_create_indexed_block** (same code path as indexed) -/
+theorem lb_ub_extent_eq_spec_indexed_block (bl : Int) (ds : List Int) (t : Tree) (o r : Obj) (ho : build t = some o)
+    (hlb : o.info.lb = (Spec.layout t).lb) (hub : o.info.ub = (Spec.layout t).ub)
+    (hext : 0 ≤ (Spec.layout t).extent)
+    (hnat : o.info.derived = false → o.info.lb = 0 ∧ o.info.ub = o.info.size)
+    (hr : build (.indexedBlock bl ds t) = some r) :
+    r.info.lb = (Spec.layout (.indexedBlock bl ds t)).lb ∧ r.info.ub = (Spec.layout (.indexedBlock bl ds t)).ub := by
+  have hr' : build (.indexed (ds.map (fun d => (bl, d))) t) = some r := by
+    simp only [build] at hr ⊢; exact hr
+  have hs : Spec.layout (.indexedBlock bl ds t) = Spec.layout (.indexed (ds.map (fun d => (bl, d))) t) := by
+    simp only [Spec.layout, List.flatMap_map]
+  rw [hs]
+  exact lb_ub_extent_eq_spec_indexed _ t o r ho hlb hub hext hnat hr'
+
+/-- **MPI_Type_create_hindexed_block** (same code path as hindexed) -/
+theorem lb_ub_extent_eq_spec_hindexed_block (bl : Int) (ds : List Int) (t : Tree) (o r : Obj) (ho : build t = some o)
+    (hlb : o.info.lb = (Spec.layout t).lb) (hub : o.info.ub = (Spec.layout t).ub)
+    (hext : 0 ≤ (Spec.layout t).extent)
+    (hnat : o.info.derived = false → o.info.lb = 0 ∧ o.info.ub = o.info.size)
+    (hr : build (.hindexedBlock bl ds t) = some r) :
+    r.info.lb = (Spec.layout (.hindexedBlock bl ds t)).lb ∧ r.info.ub = (Spec.layout (.hindexedBlock bl ds t)).ub := by
+  have hr' : build (.hindexed (ds.map (fun d => (bl, d))) t) = some r := by
+    simp only [build] at hr ⊢; exact hr
+  have hs : Spec.layout (.hindexedBlock bl ds t) = Spec.layout (.hindexed (ds.map (fun d => (bl, d))) t) := by
+    simp only [Spec.layout, List.flatMap_map]
+  rw [hs]
+  exact lb_ub_extent_eq_spec_hindexed _ t o r ho hlb hub hext hnat hr'
+
+/-- **MPI_Type_create_struct**, ∀ member lists (any block lengths ≥ 0 incl. 0, any displacements, any order, members of
+    different types), every member satisfying the spec (`MembersOk`): the lb and ub the code computes are MPI's (min / max
+    over the members that have at least one copy; 0 / 0 without any).  Covers the Type_Struct object and the contiguous
+    shortcut (MPI_CHAR run). -/
+theorem lb_ub_extent_eq_spec_struct (m : Members) (ms : List (Int × Int × Obj)) (r : Obj)
+    (hm : buildMembers m = some ms) (hok : MembersOk m ms)
+    (hnat : ∀ x ∈ ms, x.2.2.info.derived = false →
+      x.2.2.info.lb = 0 ∧ x.2.2.info.ub = x.2.2.info.size ∧ 0 ≤ x.2.2.info.size)
+    (hr : build (.struct m) = some r) :
+    r.info.lb = (Spec.layout (.struct m)).lb ∧ r.info.ub = (Spec.layout (.struct m)).ub := by
+  simp only [build, hm, Option.bind_some] at hr
+  obtain ⟨h1, h2⟩ := mkStruct_bounds ms r hnat hr
+  obtain ⟨s1, s2⟩ := spec_members m ms hok
+  rw [h1, h2]
+  refine ⟨?_, ?_⟩ <;> simp only [Spec.layout, s1, s2]
+
+/-- **one-dimensional MPI_Type_create_subarray**, ∀ sizes / subsizes / starts / order, ∀ old types: lb = 0 and the extent
+    is the one of the full array, as MPI defines -/
+theorem lb_ub_extent_eq_spec_subarray_ndims1 (sz sub start : Int) (c : Bool) (t : Tree) (o r : Obj) (ho : build t = some o)
+    (hlb : o.info.lb = (Spec.layout t).lb) (hub : o.info.ub = (Spec.layout t).ub)
+    (hr : build (.subarray [(sz, sub, start)] c t) = some r) :
+    r.info.lb = (Spec.layout (.subarray [(sz, sub, start)] c t)).lb ∧
+    r.info.ub = (Spec.layout (.subarray [(sz, sub, start)] c t)).ub := by
+  have hE := info_extent_eq t o hlb hub
+  simp only [build, ho, Option.bind_some, mkSubarray] at hr
+  split at hr
+  · cases hr
+  · split at hr
+    · cases hr
+    · split at hr
+      · cases hr
+      · injection hr with hr
+        subst hr
+        rw [hE]
+        simp [mkResized, Obj.info, Spec.layout]
+
+/-! ### closure along trees: the indexed family over the basic types -/
+
+/-- trees made of the basic types with indexed / hindexed / indexed_block / hindexed_block (any arguments), resized (to a
+    non-negative extent) and dup, nested to any depth -/
+inductive IdxTree : Tree → Prop
+  | basic (s : Nat) : IdxTree (.basic s)
+  | indexed (bs : List (Int × Int)) (t : Tree) : IdxTree t → IdxTree (.indexed bs t)
+  | hindexed (bs : List (Int × Int)) (t : Tree) : IdxTree t → IdxTree (.hindexed bs t)
+  | indexedBlock (bl : Int) (ds : List Int) (t : Tree) : IdxTree t → IdxTree (.indexedBlock bl ds t)
+  | hindexedBlock (bl : Int) (ds : List Int) (t : Tree) : IdxTree t → IdxTree (.hindexedBlock bl ds t)
+  | resized (lb ext : Int) (t : Tree) : 0 ≤ ext → IdxTree t → IdxTree (.resized lb ext t)
+  | dup (t : Tree) : IdxTree t → IdxTree (.dup t)
+
+/-- "the object satisfies the spec": the hypotheses of the per-constructor theorems -/
+def Good (t : Tree) (o : Obj) : Prop :=
+  o.info.lb = (Spec.layout t).lb ∧ o.info.ub = (Spec.layout t).ub ∧ 0 ≤ (Spec.layout t).extent ∧
+  (o.info.derived = false → o.info.lb = 0 ∧ o.info.ub = o.info.size ∧ 0 ≤ o.info.size)
+
+theorem good_indexed (bs : List (Int × Int)) (t : Tree) (o r : Obj) (hb : build t = some o) (hg : Good t o)
+    (hr : build (.indexed bs t) = some r) : Good (.indexed bs t) r := by
+  obtain ⟨glb, gub, gext, gnat⟩ := hg
+  have hn : o.info.derived = false → o.info.lb = 0 ∧ o.info.ub = o.info.size := fun h => ⟨(gnat h).1, (gnat h).2.1⟩
+  have hlu := lb_ub_extent_eq_spec_indexed bs t o r hb glb gub gext hn hr
+  have hr' : mkIndexed bs o = some r := by simpa [build, hb] using hr
+  have he : 0 ≤ o.info.extent := by rw [info_extent_eq t o glb gub]; exact gext
+  have hle : (Spec.layout t).lb ≤ (Spec.layout t).ub := by simp only [Spec.Layout.extent] at gext; omega
+  refine ⟨hlu.1, hlu.2, ?_, mkIndexed_natural bs o r he hn hr'⟩
+  simp only [Spec.layout, Spec.place, Spec.Layout.extent]
+  exact Int.sub_nonneg_of_le (listMin_le_listMax _ _ _ hle)
+
+theorem good_hindexed (bs : List (Int × Int)) (t : Tree) (o r : Obj) (hb : build t = some o) (hg : Good t o)
+    (hr : build (.hindexed bs t) = some r) : Good (.hindexed bs t) r := by
+  obtain ⟨glb, gub, gext, gnat⟩ := hg
+  have hn : o.info.derived = false → o.info.lb = 0 ∧ o.info.ub = o.info.size := fun h => ⟨(gnat h).1, (gnat h).2.1⟩
+  have hlu := lb_ub_extent_eq_spec_hindexed bs t o r hb glb gub gext hn hr
+  have hr' : mkHindexed bs o = some r := by simpa [build, hb] using hr
+  have he : 0 ≤ o.info.extent := by rw [info_extent_eq t o glb gub]; exact gext
+  have hle : (Spec.layout t).lb ≤ (Spec.layout t).ub := by simp only [Spec.Layout.extent] at gext; omega
+  refine ⟨hlu.1, hlu.2, ?_, mkHindexed_natural bs o r he hn hr'⟩
+  simp only [Spec.layout, Spec.place, Spec.Layout.extent]
+  exact Int.sub_nonneg_of_le (listMin_le_listMax _ _ _ hle)
+
+/-- **lb_ub_extent_eq_spec on the indexed family, by induction on the tree** (any depth, any block lists, any resizes to a
+    non-negative extent): whenever the constructor calls succeed, the lb and ub of the resulting datatype are MPI's -/
+theorem lb_ub_extent_eq_spec_idx_trees (t : Tree) (h : IdxTree t) : ∀ o, build t = some o → Good t o := by
+  induction h with
+  | basic s =>
+    intro o ho
+    simp only [build, Option.some.injEq] at ho
+    subst ho
+    simp [Good, basicObj, Obj.info, Spec.layout, Spec.Layout.extent]
+  | indexed bs t _ ih =>
+    intro r hr
+    cases hb : build t with
+    | none => simp [build, hb] at hr
+    | some o => exact good_indexed bs t o r hb (ih o hb) hr
+  | hindexed bs t _ ih =>
+    intro r hr
+    cases hb : build t with
+    | none => simp [build, hb] at hr
+    | some o => exact good_hindexed bs t o r hb (ih o hb) hr
+  | indexedBlock bl ds t _ ih =>
+    intro r hr
+    cases hb : build t with
+    | none => simp [build, hb] at hr
+    | some o =>
+      have hr' : build (.indexed (ds.map (fun d => (bl, d))) t) = some r := by simp only [build] at hr ⊢; exact hr
+      have hs : Spec.layout (.indexedBlock bl ds t) = Spec.layout (.indexed (ds.map (fun d => (bl, d))) t) := by
+        simp only [Spec.layout, List.flatMap_map]
+      have := good_indexed _ t o r hb (ih o hb) hr'
+      simp only [Good, hs]
+      exact this
+  | hindexedBlock bl ds t _ ih =>
+    intro r hr
+    cases hb : build t with
+    | none => simp [build, hb] at hr
+    | some o =>
+      have hr' : build (.hindexed (ds.map (fun d => (bl, d))) t) = some r := by simp only [build] at hr ⊢; exact hr
+      have hs : Spec.layout (.hindexedBlock bl ds t) = Spec.layout (.hindexed (ds.map (fun d => (bl, d))) t) := by
+        simp only [Spec.layout, List.flatMap_map]
+      have := good_hindexed _ t o r hb (ih o hb) hr'
+      simp only [Good, hs]
+      exact this
+  | resized lb ext t hext _ ih =>
+    intro r hr
+    cases hb : build t with
+    | none => simp [build, hb] at hr
+    | some o =>
+      simp only [build, hb, Option.map_some, Option.some.injEq] at hr
+      subst hr
+      simp only [Good, mkResized, Obj.info, Spec.layout, Spec.Layout.extent]
+      exact ⟨trivial, trivial, by omega, fun h => by simp at h⟩
+  | dup t _ ih =>
+    intro r hr
+    cases hb : build t with
+    | none => simp [build, hb] at hr
+    | some o =>
+      simp only [build, hb, Option.map_some, Option.some.injEq] at hr
+      subst hr
+      have hg := ih o hb
+      simp only [Good, cloneObj_info, Spec.layout]
+      exact hg
+
+/-! ### regressions: the witnesses of the fixed defects (every one is replayed on the library by props/C30/corpus.txt) -/
 
 def slu (t : Tree) : Option (Int × Int × Int) := (build t).map (fun o => (o.info.size, o.info.lb, o.info.ub))
 def specSlu (t : Tree) : Int × Int × Int := ((Spec.layout t).size, (Spec.layout t).lb, (Spec.layout t).ub)
 
-/-- indexed over an old type with lb ≠ 0: `bl·ub_old` instead of `(bl−1)·extent_old + ub_old`, and the first block's lb
-    without `+ lb_old`.  MPI_Type_indexed(1, [2], [0], MPI_Type_indexed(1, [1], [1], MPI_INT)) -/
-theorem lb_ub_extent_eq_spec_indexed_counterexample :
-    slu (.indexed [(2, 0)] (.indexed [(1, 1)] (.basic 4))) = some (8, 0, 16) ∧
+/-- indexed over an old type with lb ≠ 0.  MPI_Type_indexed(1, [2], [0], MPI_Type_indexed(1, [1], [1], MPI_INT)):
+    the old code gave (8, 0, 16) (`bl·ub_old`, first block's lb without `+ lb_old`) -/
+theorem lb_ub_extent_eq_spec_indexed_regression :
+    slu (.indexed [(2, 0)] (.indexed [(1, 1)] (.basic 4))) = some (8, 4, 12) ∧
     specSlu (.indexed [(2, 0)] (.indexed [(1, 1)] (.basic 4))) = (8, 4, 12) := by decide
 
-theorem lb_ub_extent_eq_spec_hindexed_counterexample :
-    slu (.hindexed [(2, 0)] (.indexed [(1, 1)] (.basic 4))) = some (8, 4, 16) ∧
+/-- the old code gave (8, 4, 16) -/
+theorem lb_ub_extent_eq_spec_hindexed_regression :
+    slu (.hindexed [(2, 0)] (.indexed [(1, 1)] (.basic 4))) = some (8, 4, 12) ∧
     specSlu (.hindexed [(2, 0)] (.indexed [(1, 1)] (.basic 4))) = (8, 4, 12) := by decide
 
-/-- struct: `lb = indices[i]` drops `+ lb_old`; `bl·ub_old` -/
-theorem lb_ub_extent_eq_spec_struct_counterexample :
-    slu (.struct (.cons 2 0 (.indexed [(1, 1)] (.basic 4)) .nil)) = some (8, 4, 16) ∧
+/-- struct: the old code (`lb = indices[i]` dropping `+ lb_old`; `bl·ub_old`) gave (8, 4, 16) -/
+theorem lb_ub_extent_eq_spec_struct_regression :
+    slu (.struct (.cons 2 0 (.indexed [(1, 1)] (.basic 4)) .nil)) = some (8, 4, 12) ∧
     specSlu (.struct (.cons 2 0 (.indexed [(1, 1)] (.basic 4)) .nil)) = (8, 4, 12) := by decide
 
-/-- zero-length blocks take part in lb / ub: MPI_Type_indexed(2, [0,1], [5,0], MPI_INT) has extent 20 instead of 4 -/
-theorem lb_ub_extent_eq_spec_zero_block_counterexample :
-    slu (.indexed [(0, 5), (1, 0)] (.basic 4)) = some (4, 0, 20) ∧
-    specSlu (.indexed [(0, 5), (1, 0)] (.basic 4)) = (4, 0, 4) := by decide
+/-- zero-length blocks took part in lb / ub: MPI_Type_indexed(2, [0,1], [5,0], MPI_INT) had (4, 0, 20) -/
+theorem lb_ub_extent_eq_spec_zero_block_regression :
+    slu (.indexed [(0, 5), (1, 0)] (.basic 4)) = some (4, 0, 4) ∧
+    specSlu (.indexed [(0, 5), (1, 0)] (.basic 4)) = (4, 0, 4) ∧
+    slu (.struct (.cons 0 40 (.basic 4) (.cons 1 0 (.basic 8) .nil))) = some (8, 0, 8) ∧
+    specSlu (.struct (.cons 0 40 (.basic 4) (.cons 1 0 (.basic 8) .nil))) = (8, 0, 8) := by decide
 
-/-- MPI_Type_vector(2, 0, 3, MPI_INT): an empty type with extent 12 -/
-theorem lb_ub_extent_eq_spec_vector_counterexample :
-    slu (.vector 2 0 3 (.basic 4)) = some (0, 0, 12) ∧ specSlu (.vector 2 0 3 (.basic 4)) = (0, 0, 0) := by decide
+/-- MPI_Type_vector(2, 0, 3, MPI_INT) was an empty type with extent 12 -/
+theorem lb_ub_extent_eq_spec_vector_regression :
+    slu (.vector 2 0 3 (.basic 4)) = some (0, 0, 0) ∧ specSlu (.vector 2 0 3 (.basic 4)) = (0, 0, 0) ∧
+    slu (.hvector 2 0 8 (.basic 4)) = some (0, 0, 0) ∧ specSlu (.hvector 2 0 8 (.basic 4)) = (0, 0, 0) := by decide
 
-/-- one-dimensional subarray: lb = start·extent and extent = subsize·extent instead of 0 and size·extent -/
-theorem lb_ub_extent_eq_spec_subarray_counterexample :
-    slu (.subarray [(10, 3, 2)] true (.basic 4)) = some (12, 8, 20) ∧
+/-- one-dimensional subarray: the old code gave (12, 8, 20) (lb = start·extent, extent = subsize·extent) -/
+theorem lb_ub_extent_eq_spec_subarray_regression :
+    slu (.subarray [(10, 3, 2)] true (.basic 4)) = some (12, 0, 40) ∧
     specSlu (.subarray [(10, 3, 2)] true (.basic 4)) = (12, 0, 40) := by decide
 
-/-- regression (fixed in /repo a255fb7726): the 4×6 subarray of ints now has the extent of the full array, 96 -/
+/-- regression (fixed in /repo a255fb7726): the 4×6 subarray of ints has the extent of the full array, 96 -/
 theorem subarray_extent_regression :
     slu (.subarray [(4, 2, 1), (6, 3, 2)] true (.basic 4)) = some (24, 0, 96) ∧
     specSlu (.subarray [(4, 2, 1), (6, 3, 2)] true (.basic 4)) = (24, 0, 96) := by decide
 
-/-- a (≥ 2)-dimensional subarray of a derived, not yet committed old type is rejected (MPI_ERR_TYPE) although MPI only
-    requires a commit before communication -/
+/-- STILL FALSE on the code (finding `valid-type-rejected`): a (≥ 2)-dimensional subarray of a derived, not yet committed
+    old type is rejected (MPI_ERR_TYPE) although MPI only requires a commit before communication -/
 theorem subarray_uncommitted_rejected_counterexample :
     build (.subarray [(2, 1, 0), (2, 1, 0)] true (.contiguous 2 (.basic 4))) = none := by decide
+
+/-- MPI_Type_dup of a vector / indexed type transfers the bytes of the original (the old `clone` re-scaled the byte
+    stride: second block at 48 instead of 12; and reinterpreted the MPI_Aint displacements as ints: a write at offset 64) -/
+theorem dup_walk_regression :
+    (build (.dup (.vector 2 1 3 (.basic 4)))).map (fun o => walk o 1 0) = some [0, 1, 2, 3, 12, 13, 14, 15] ∧
+    (build (.dup (.indexed [(1, 4), (1, 0), (1, 2)] (.basic 4)))).map (fun o => walk o 1 0) =
+      some [16, 17, 18, 19, 0, 1, 2, 3, 8, 9, 10, 11] := by decide
+
+/-- count > 1 of a type whose blocks are not in increasing order: element j is walked at j extents (the old walk
+    restarted at the end of the last block: 2 × indexed([1,1],[2,0],MPI_INT) gave bytes 8.., 0.., 4.., 0..) -/
+theorem multi_count_walk_regression :
+    (build (.indexed [(1, 2), (1, 0)] (.basic 4))).map (fun o => walk o 2 0) =
+      some [8, 9, 10, 11, 0, 1, 2, 3, 20, 21, 22, 23, 12, 13, 14, 15] ∧
+    Spec.bytesOf (Spec.layout (.indexed [(1, 2), (1, 0)] (.basic 4))) 2 =
+      [8, 9, 10, 11, 0, 1, 2, 3, 20, 21, 22, 23, 12, 13, 14, 15] := by decide
 
 /-! non-vacuity -/
 example : (build (.vector 2 1 3 (.basic 4))).map Obj.info = some ⟨8, 0, 16, true⟩ := by decide
 example : specSlu (.vector 2 1 3 (.basic 4)) = (8, 0, 16) := by decide
+/-- the hypotheses of `lb_ub_extent_eq_spec_indexed` hold for an old type with lb ≠ 0 (and the conclusion is not trivial) -/
+example : (build (.indexed [(1, 1)] (.basic 4))).map Obj.info = some ⟨4, 4, 8, true⟩ ∧
+    specSlu (.indexed [(1, 1)] (.basic 4)) = (4, 4, 8) := by decide
+/-- the contiguous shortcut of create_indexed is taken by [(2,1),(0,3),(1,3)] over MPI_INT (a Type_Contiguous at lb 4) -/
+example : (build (.indexed [(2, 1), (0, 3), (1, 3)] (.basic 4))).map Obj.info = some ⟨12, 4, 16, true⟩ ∧
+    specSlu (.indexed [(2, 1), (0, 3), (1, 3)] (.basic 4)) = (12, 4, 16) := by decide
+
+/-- `MembersOk` (hypothesis of `lb_ub_extent_eq_spec_struct`) holds for a struct with an empty member, a member whose lb
+    is not 0 and members out of order -/
+example : MembersOk (.cons 0 40 (.basic 4) (.cons 2 8 (.indexed [(1, 1)] (.basic 4)) (.cons 1 0 (.basic 8) .nil)))
+    [(0, 40, basicObj 4), (2, 8, .hindexed ⟨4, 4, 8, true⟩ [(1, 4)] (basicObj 4) true), (1, 0, basicObj 8)] := by
+  simp only [MembersOk]
+  refine ⟨_, _, rfl, by decide, by decide, by decide, _, _, rfl, by decide, by decide, by decide, _, _, rfl, by decide,
+    by decide, by decide, rfl⟩
+example : slu (.struct (.cons 0 40 (.basic 4) (.cons 2 8 (.indexed [(1, 1)] (.basic 4)) (.cons 1 0 (.basic 8) .nil)))) =
+    some (16, 0, 20) ∧
+    specSlu (.struct (.cons 0 40 (.basic 4) (.cons 2 8 (.indexed [(1, 1)] (.basic 4)) (.cons 1 0 (.basic 8) .nil)))) =
+    (16, 0, 20) := by decide
+
+/-- `lb_ub_extent_eq_spec_idx_trees` on a three-level tree with an old lb ≠ 0, a zero-length block, shuffled blocks, a resize -/
+example : IdxTree (.indexed [(0, 7), (2, 1), (1, 0)] (.resized 4 24 (.hindexedBlock 2 [8, 0] (.basic 4)))) :=
+  .indexed _ _ (.resized _ _ _ (by decide) (.hindexedBlock _ _ _ (.basic 4)))
+example : slu (.indexed [(0, 7), (2, 1), (1, 0)] (.resized 4 24 (.hindexedBlock 2 [8, 0] (.basic 4)))) = some (48, 4, 76) ∧
+    specSlu (.indexed [(0, 7), (2, 1), (1, 0)] (.resized 4 24 (.hindexedBlock 2 [8, 0] (.basic 4)))) = (48, 4, 76) := by
+  decide
 
 end SgVerif.C30
